@@ -16,6 +16,7 @@ import TzVerif.Proofs.SpecLookup
 import TzVerif.Proofs.IanaRules
 import TzVerif.Proofs.SrcEqTzFile
 import TzVerif.Proofs.SrcEqFind
+import TzVerif.Generated.StableC10   -- per run: the current translation (SrcNow) equals the baseline (Src) these theorems are about
 
 namespace TzVerif.C10
 open TzVerif.Model TzVerif.Proofs
